@@ -27,6 +27,18 @@ func init() {
 const fl = "tools/flow."
 
 func checkC18(c *Ctx) {
+	// ownership of controller and task state (only the controller goroutine's functions, plus Fill for update)
+	c.checkFieldWriters("ownership.field-writers", "tools/flow", "Task", map[string][]string{
+		"state": {"(*Controller).markReady", "(*Controller).runLoop"}, "err": {"(*Controller).getTask", "(*Controller).runLoop"},
+		"update": {"(*Controller).updateTaskResults", "(*Task).Fill"}, "depTasks": {"(*Controller).initTasks", "(*Task).addDep"},
+		"deps": {"(*Task).addDep"}, "conjunctSeq": {"(*Controller).updateTaskResults"}, "valueSeq": {"(*Controller).getTask", "(*Controller).updateTaskValue"},
+		"v": {"(*Controller).getTask", "(*Controller).updateTaskValue"}, "deferred": {"(*Controller).initTasks"},
+	})
+	c.checkFieldWriters("ownership.field-writers", "tools/flow", "Controller", map[string][]string{
+		"errs": {"(*Controller).addErr"}, "conjuncts": {"(*Controller).runLoop", "(*Controller).updateTaskResults"},
+		"conjunctSeq": {"(*Controller).updateTaskResults"}, "inst": {"(*Controller).updateValue", "New"},
+		"valueSeqNum": {"(*Controller).updateValue"}, "tasks": {"(*Controller).getTask"}, "taskCh": {"New"},
+	})
 	// errcheck-style baseline: a newly discarded error in the package is a dropped protocol/validation step
 	c.checkErrorDiscipline("errors.no-new-dropped-error", "tools/flow", map[string]string{
 		"(*Controller).findRootTasks|cue.Value.Fields": "iteration over a value that was validated before; an error yields no tasks and surfaces as invalid root",
